@@ -76,7 +76,7 @@ Example C18_run_untouched :
 Proof. vm_compute. reflexivity. Qed.
 
 (** ---- text mode, down to the framebuffer (Props/C18_text.v) ---- *)
-From Coq Require Import FMapPositive.
+From Coq Require Import FMapPositive Bool.
 From FF Require Import Gen.Consts_device_video_console Console.Mem Console.Vga Console.VgaProofs Tty.VtVgaSync Props.C18_text.
 
 (** a 3x2 text console whose framebuffer initially holds 'X' in yellow on red in every cell *)
@@ -117,3 +117,40 @@ Example C18_run_text_3x2 :
   | PanicOOB => False
   end.
 Proof. vm_compute. reflexivity. Qed.
+
+(** ---- framebuffer console, down to the pixels (Props/C18_text.v: C18_sync_pixels_fb) ---- *)
+From FF Require Import Console.Vesa Console.VesaSpec Console.VesaProofs Tty.VtVesaSync Tty.VtVesaProofs.
+
+(** a small 16-bit console, 20x5 pixels with 3 bytes of padding per row, a synthetic 8x2 font whose
+    space glyph is blank: a 2x2 text grid with a 4-pixel right margin and 1 pixel row below *)
+Definition ex18_font : font :=
+  mkFont 8 2 1 512 (fun i => if (64 <=? i) && (i <? 66) then 0 else i mod 256).
+Definition ex18_vesa : option vesa :=
+  set_font (new_vesa 20 5 16 43 (mkColorInfo 11 5 5 6 0 5) 256 (fun i => (i, 255 - i, i / 2))) ex18_font.
+
+Example C18_sync_pixels_fb_nonvacuous :
+  exists c, ex18_vesa = Some c /\ vesa_wf c ex18_font D16 (fresh 215 (fun i => i mod 256)) /\
+            wchars c = 2 /\ hchars c = 2 /\
+            (forall r q, r < f_gh ex18_font -> q < f_gw ex18_font -> glyph_bit ex18_font 32 r q = false).
+Proof.
+  eexists. split; [reflexivity|]. split; [|split; [reflexivity|split; [reflexivity|]]].
+  - constructor; cbn; try reflexivity; unfold two32; try lia.
+  - intros r q Hr Hq. cbn [f_gh f_gw ex18_font] in Hr, Hq. unfold glyph_bit.
+    assert (Er : r = 0 \/ r = 1) by lia. replace (q / 8) with 0 by lia.
+    destruct Er as [-> | ->]; reflexivity.
+Qed.
+
+Example C18_sync_pixels_fb_2x2 :
+  exists c v0 v m,
+    ex18_vesa = Some c /\
+    attach (new_vt 2 1) 2 2 vesa_defaultFg vesa_defaultBg = Vt.Ok v0 /\ run_ops v0 ex18_ops = Vt.Ok v /\
+    vesa_apply_calls c (fresh 215 (fun i => i mod 256)) (rev (trace v)) = Mem.Ok m /\
+    (forall i, protected c i -> load m i = load (fresh 215 (fun i => i mod 256)) i) /\
+    (st v = tty_StateActive -> forall i, byte_shows c ex18_font D16 m v i).
+Proof.
+  destruct C18_sync_pixels_fb_nonvacuous as (c & Ec & Hwf & Ew & Eh & Hsp).
+  destruct (C18_sync_pixels_fb c ex18_font D16 (fresh 215 (fun i => i mod 256)) 1 2 ex18_ops Hwf)
+    as (v0 & v & m & A1 & A2 & A3 & A4 & A5);
+    [lia|rewrite Ew, Eh; unfold two32; lia|exact C18_ops_nonvacuous|exact Hsp|].
+  rewrite Ew, Eh in A1. exists c, v0, v, m. auto 10.
+Qed.
